@@ -482,6 +482,8 @@ func (g *generator) nextInner() Op {
 		plan := g.retargetPlan(alive)
 		if g.pct(40) {
 			plan = g.orphanPlan()
+		} else if g.pct(35) {
+			plan = g.mixedBatchPlan()
 		}
 		if len(plan) > 0 {
 			g.plan = plan[1:]
@@ -889,6 +891,13 @@ func (g *generator) nextInner() Op {
 				op.Api = "Relations.ExchangeBatch"
 				op.HasRel, op.Rel = true, keptRel
 				op.Tgt = g.target(faulty && g.pct(50))
+				if !faulty && g.pct(50) {
+					// the target some of the matching entities already have: their table changes components only,
+					// the tables of the others also change target - the event type bits differ within one batch
+					if t := g.currentTargetRef(g.pick(match), keptRel); t >= -1 {
+						op.Tgt = t
+					}
+				}
 			case len(rem) == 0 && g.pct(50):
 				op.Api = "Batch.Add"
 			case len(add) == 0 && g.pct(50):
@@ -1725,4 +1734,55 @@ func (g *generator) orphanPlan() []Op {
 		plan = append(plan, Op{Op: "BatchSetRelation", Api: "Batch.SetRelation", F: rf(), Rel: rel, Tgt: g.target(false)})
 	}
 	return plan
+}
+
+// currentTargetRef returns the reference of ref's current target for relation rel: -1 for the zero entity,
+// -2 if it cannot be named (dead target of an earlier epoch, no relation).
+func (g *generator) currentTargetRef(ref, rel int) (res int) {
+	defer func() {
+		if recover() != nil {
+			res = -2
+		}
+	}()
+	t := g.x.w.Relations().Get(g.x.issued[ref], g.x.idOf(rel))
+	if t.IsZero() {
+		return -1
+	}
+	if !g.x.w.Alive(t) {
+		return -2
+	}
+	for i := len(g.x.issued) - 1; i >= g.x.epoch; i-- {
+		if g.x.issued[i] == t {
+			return i
+		}
+	}
+	return -2
+}
+
+// mixedBatchPlan: children of two parents in one relation node; one batch exchange names the first parent as the
+// target - the first table only gains / loses a component, the second one also changes target, so the event type
+// bits differ between the tables of one batch (and with them what a partially subscribed listener must receive).
+func (g *generator) mixedBatchPlan() []Op {
+	if len(g.rels) == 0 || len(g.nons) < 1 {
+		return nil
+	}
+	rel := g.pick(g.rels)
+	y := g.pick(g.nons)
+	p1 := len(g.x.issued)
+	p2 := p1 + 1
+	child := func(t int) Op {
+		return Op{Op: "BuilderNew", Api: "Builder.New", Ids: []int{rel}, HasRel: true, Rel: rel, HasTgt: true, Tgt: t}
+	}
+	plan := []Op{{Op: "NewEntity", Api: "World.NewEntity", Ids: []int{}}, {Op: "NewEntity", Api: "World.NewEntity", Ids: []int{}},
+		child(p1), child(p2), child(p2)}
+	f := &FSpec{K: "excl", Ids: []int{rel}, Tgt: -1}
+	tgt := p1
+	if g.pct(30) {
+		tgt = p2
+	}
+	op := Op{Op: "BatchExchange", Api: "Relations.ExchangeBatch", F: f, Add: []int{y}, Rem: []int{}, HasRel: true, Rel: rel, Tgt: tgt}
+	if g.pct(40) {
+		op.Q, op.Api, op.Walk = true, "Relations.ExchangeBatchQ", g.walk()
+	}
+	return append(plan, op)
 }
